@@ -23,7 +23,9 @@ RULE = ("(a) every uatomic operation (set, read, xchg, cmpxchg miss and hit, add
         "function and the documented semantics on a 22-value operand grid (binding), and translated into a Promela model of two "
         "threads with x86-TSO store buffers which Spin explores exhaustively: no lost update / token conservation / single "
         "cmpxchg winner, and no 0/0 outcome of the store-buffering litmus around xchg, successful cmpxchg, add_return, sub_return; "
-        "a case is non-trivial when operand and old value are not both zero")
+        "for the same four barrier operations x 4 widths x 2 back-ends a compiler-barrier probe (plain load and store on each side of "
+        "the operation) is compiled at -O2 and its instruction sequence checked: both loads and both stores are emitted on their side "
+        "of the atomic instruction; a case is non-trivial when operand and old value are not both zero")
 ASSUMPTIONS = ["x86-TSO; lock-prefixed instructions and xchg with a memory operand are single atomic steps that drain the store buffer (Intel SDM)",
                "the Promela value domain is byte-wide (values are covered by part (a))",
                "atomicity on real silicon is decided on the instruction-level model, not on hardware"]
